@@ -21,10 +21,9 @@ Two oracles:
  (b) call level - a call that the message rules forbid in the model state must
      raise ProtocolError (RFC1122Error for server-side priority) and emit
      nothing.
-Whether a permitted call succeeds is C06's question and is not judged here; a
-permitted call that raises only marks the stream as "poisoned" (the library
-closes a stream on a refused action), after which only the wire grammar judges
-that stream.
+Whether a permitted call succeeds is C06's question and is not judged here.  A
+refused call changes nothing, so the model keeps the stream where it was and
+goes on judging every later call on it.
 """
 import h2.exceptions
 
@@ -229,7 +228,7 @@ def run_case(idx, rng, tier, rep):
         if not e_client:
             return
         parents = [s for s, v in ms.items() if v['kind'] == 'own' and v['phase'] in ('body', 'done') and not v['poisoned']
-                   and not v.get('p_ended') and ws.get(s, {}).get('phase') != 'reset']
+                   and not v.get('p_ended') and v.get('p_phase') != 'done' and v['phase'] != 'reset' and ws.get(s, {}).get('phase') != 'reset']
         if not parents:
             return
         par = rng.choice(sorted(parents))
@@ -318,6 +317,7 @@ def run_case(idx, rng, tier, rep):
                 return True
             rep.count('permitted_call_raised_not_judged')
             rep.observe('permitted_but_raised', '%s:%s' % (what, type(r.exc).__name__))
+            st['permitted_raised'] = True
             return False
         st['judged'] = True
         rep.count('judged:' + forbidden)
@@ -348,8 +348,9 @@ def run_case(idx, rng, tier, rep):
         return h.peer_next
 
     def poison(sid):
-        if sid in ms:
-            ms[sid]['poisoned'] = True
+        # a refused call sends nothing and therefore changes nothing: the stream stays where the model has it and every later call
+        # on it is judged as usual (the 'poisoned' flag is kept only for permitted calls that raise, which C06 judges)
+        return
 
     def legal_headers_choice():
         """A (stream, block kind, END_STREAM) that the model permits, to make progress into deeper states."""
